@@ -225,7 +225,9 @@ class PjRpcMocker:
 
         response: Union[pjrpc.BatchResponse, pjrpc.Response]
         if isinstance(json_data, (list, tuple)):
-            response = pjrpc.BatchResponse()
+            # a mock replies as configured, element by element: responses configured with the same id
+            # must not make the mocker itself raise IdentityError
+            response = pjrpc.BatchResponse(strict=False)
             for request in pjrpc.BatchRequest.from_json(json_data):
                 response.append(
                     self._match_request(endpoint, request.version, request.method, request.params, request.id),
